@@ -47,6 +47,10 @@ SCENARIOS = {
     # result only through a weak reference
     "array-held": dict(prep=[], target=["a_arr", 1], hold=True, model=False,
                        matrix=[["a_arr", 1], ["a_arr", 1], ["a_arr", 1], ["a_arr", 2], ["a_arr", 2]]),
+    # calls whose value is not wanted (ignore_result), at the top level and as a warm-up call inside another memento function
+    "ignore-result": dict(prep=[], target=["w_warm", 1], model=False,
+                          matrix=[["w_warm", 1], ["w_warm", 1], ["f_scalar", 1], ["f_scalar", 1, "ignore"], ["f_scalar", 2, "ignore"], ["f_scalar", 2],
+                                  ["f_scalar", 2, "ignore"]]),
     # a partition merged on top of the partition returned by a nested memento call (both written during the faulted call)
     "merged-partition": dict(prep=[], target=["p_b", 1],
                              matrix=[["p_b", 1], ["p_b", 1], ["p_a", 1], ["p_a", 1], ["p_b", 1]], model=False),
@@ -161,8 +165,10 @@ def judge(sc, results, first_may_execute=True):
     fails = []
     seen = {}
     for r in results:
-        name, x = r["call"]
+        name, x = r["call"][0], r["call"][1]
         exp = c08fns.expected(name, x)
+        if len(r["call"]) > 2 and r["call"][2] == "ignore" and exp[0] != "raise":
+            exp = ["none"]                  # the value of an ignore_result() call is None; failures still propagate
         got = r["result"]
         if exp[0] == "raise" and got[0] == "raise" and got[1] == exp[1] and got[2].startswith(exp[2]):
             got = exp      # a replayed exception carries the original message plus a stack-trace marker
@@ -324,7 +330,7 @@ def main(chk, replay=None):
 
     chk.level = "proof"
     chk.rule = ("scenarios {scalar, dedup hit, exception, 2-key partition, null with override, override rewrite, populated store, "
-                "partition merged on a nested call's partition, array larger than the cache whose results the caller keeps} x backends {fs, fs+cache, fs+cache smaller than any result}; for each, EVERY mutating primitive op (mkdir, open-for-write, rename, remove under the "
+                "partition merged on a nested call's partition, array larger than the cache whose results the caller keeps, calls whose value is ignored (top level and warm-up inside a function)} x backends {fs, fs+cache, fs+cache smaller than any result}; for each, EVERY mutating primitive op (mkdir, open-for-write, rename, remove under the "
                 "root) recorded in a fault-free run gives the variants crash-before, ENOSPC-at-op, and for file opens "
                 "EFBIG-on-write and crash-mid-write (file left empty / half); a transient ESTALE on every file opened for reading during the call; plus the whole call under 5 kernel file-size limits "
                 "(RLIMIT_FSIZE: real short writes). Each variant is produced with real child "
@@ -335,7 +341,7 @@ def main(chk, replay=None):
     proof_ok = chk.build_and_audit()
     quick = chk.tier == "quick"
     todo = [("scalar", "fs"), ("scalar", "fs+cache"), ("scalar", "fs+cache-tiny"), ("partition", "fs"), ("populated", "fs"),
-            ("merged-partition", "fs"), ("array-held", "fs+cache-tiny")] if quick else \
+            ("merged-partition", "fs"), ("array-held", "fs+cache-tiny"), ("ignore-result", "fs")] if quick else \
         [(s, b) for s in SCENARIOS for b in BACKENDS]
     reported = 0
     for scn, backend in todo:
